@@ -89,7 +89,7 @@ type row struct {
 func (r row) key() string { return fmt.Sprintf("%s|%d|%q", r.labels, r.ts, r.line) }
 
 // compare returns "" if got is a correct answer for the expected entries under limit/direction.
-func compare(exp []logq.Entry, out *logq.Output, limit int64, forward bool) (kind string, detail string, cut bool) {
+func Compare(exp []logq.Entry, out *logq.Output, limit int64, forward bool) (kind string, detail string, cut bool) {
 	var e []row
 	for _, x := range exp {
 		e = append(e, row{logq.CanonLabels(x.Labels), x.Ts, x.Line})
@@ -177,7 +177,7 @@ func sameLines(a, b []string) bool {
 }
 
 // judge runs one request and classifies the outcome.
-func judge(rn *logq.Runner, db *logq.DB, ch *chsql.DB, req *logq.Request) (kind, detail string, decided bool, cut bool, out *logq.Output, nexp int) {
+func Judge(rn *logq.Runner, db *logq.DB, ch *chsql.DB, req *logq.Request) (kind, detail string, decided bool, cut bool, out *logq.Output, nexp int) {
 	exp, err := logq.EvalLog(db, req.Log, req.StartNs, req.EndNs)
 	var probe *logq.ErrProbe
 	if errors.As(err, &probe) {
@@ -202,12 +202,12 @@ func judge(rn *logq.Runner, db *logq.DB, ch *chsql.DB, req *logq.Request) (kind,
 		}
 		return "query-error", "the query failed after its SQL ran: " + out.Err.Error(), true, false, out, len(exp)
 	}
-	kind, detail, cut = compare(exp, out, req.Limit, req.Forward)
+	kind, detail, cut = Compare(exp, out, req.Limit, req.Forward)
 	return kind, detail, true, cut, out, len(exp)
 }
 
 // shrink deletes stages and matchers while the same kind of mismatch persists.
-func shrink(rn *logq.Runner, db *logq.DB, ch *chsql.DB, req logq.Request, kind string) logq.Request {
+func Shrink(rn *logq.Runner, db *logq.DB, ch *chsql.DB, req logq.Request, kind string) logq.Request {
 	cur := req
 	lq := *req.Log
 	cur.Log = &lq
@@ -221,7 +221,7 @@ func shrink(rn *logq.Runner, db *logq.DB, ch *chsql.DB, req logq.Request, kind s
 			q.Stages = append(append([]logq.Stage{}, cur.Log.Stages[:i]...), cur.Log.Stages[i+1:]...)
 			t.Log = &q
 			budget--
-			if k, _, dec, _, _, _ := judge(rn, db, ch, &t); dec && k == kind {
+			if k, _, dec, _, _, _ := Judge(rn, db, ch, &t); dec && k == kind {
 				cur, changed = t, true
 				break
 			}
@@ -235,7 +235,7 @@ func shrink(rn *logq.Runner, db *logq.DB, ch *chsql.DB, req logq.Request, kind s
 			q.Matchers = append(append([]logq.Matcher{}, cur.Log.Matchers[:i]...), cur.Log.Matchers[i+1:]...)
 			t.Log = &q
 			budget--
-			if k, _, dec, _, _, _ := judge(rn, db, ch, &t); dec && k == kind {
+			if k, _, dec, _, _, _ := Judge(rn, db, ch, &t); dec && k == kind {
 				cur, changed = t, true
 				break
 			}
@@ -244,7 +244,7 @@ func shrink(rn *logq.Runner, db *logq.DB, ch *chsql.DB, req logq.Request, kind s
 			t := cur
 			t.Limit = 0
 			budget--
-			if k, _, dec, _, _, _ := judge(rn, db, ch, &t); dec && k == kind {
+			if k, _, dec, _, _, _ := Judge(rn, db, ch, &t); dec && k == kind {
 				cur, changed = t, true
 			}
 		}
@@ -271,7 +271,7 @@ func Child(c *run.Ctx, name string) {
 		ch := db.Load(cluster)
 		shape := req.Shape()
 		c.BeginCase(gi, map[string]any{"query": req.QueryString(), "shape": shape})
-		kind, detail, decided, cut, out, nexp := judge(rn, db, ch, &req)
+		kind, detail, decided, cut, out, nexp := Judge(rn, db, ch, &req)
 		lim := "nolimit"
 		if req.Limit > 0 {
 			lim = "limit"
@@ -308,9 +308,9 @@ func Child(c *run.Ctx, name string) {
 			minReq := req
 			if shrunk < 25 {
 				shrunk++
-				minReq = shrink(rn, db, ch, req, kind)
+				minReq = Shrink(rn, db, ch, req, kind)
 			}
-			_, mdetail, _, _, mout, _ := judge(rn, db, ch, &minReq)
+			_, mdetail, _, _, mout, _ := Judge(rn, db, ch, &minReq)
 			sqlText := ""
 			if mout != nil && len(mout.Execs) > 0 {
 				sqlText = mout.Execs[len(mout.Execs)-1].SQL
